@@ -33,6 +33,7 @@ RULE += (' Also: lru_cache(maxsize=<anything>) construction against functools; o
 RULE += (' Also: the decorator applied directly with typed (lru_cache(fn, True)); results that happen to be awaitable.')
 RULE += (' Also: re-entrant histories with warm-up nodes (the first run for an argument calls the cache for the same argument).')
 RULE += (' Also: re-entrant histories in which a run clears the cache it is computed for.')
+RULE += (' Also: transient failures in re-entrant histories (the first-started run for an argument fails after its warm-up call succeeded).')
 ASSUMPTIONS = ["functools.lru_cache (C implementation of the running 3.12 interpreter) is the reference",
                "cache_discard has no stdlib twin: reference is the cross-validated model"]
 EXHAUSTIVE_SUBSPACES = 'all histories of length <= 4 (thorough: 5) over 7 operations for maxsize 1 and 2'
@@ -96,6 +97,9 @@ def cases(tier, seed, shard, nshards):
         yield {"kind": "reentrant", "maxsize": rng.choice([None, 0, 1, 1, 2, 2, 3, 4, 6, "default"]), "children": children,
                "tops": tops, "fail": sorted(rng.sample(range(nn), rng.choice([0, 0, 0, 1]))),
                "warm": sorted(rng.sample(range(nn), rng.choice([0, 0, 1, 2]))),
+               # nodes whose FIRST-started run fails and whose later runs succeed (a transient failure); together
+               # with a warm-up this is an outer run failing after the inner run for the same argument succeeded
+               "fail_once": sorted(rng.sample(range(nn), rng.choice([0, 0, 1, 1]))),
                "clearers": sorted(rng.sample(range(nn), rng.choice([0, 0, 0, 1]))),
                "form": rng.choice(["paren", "bare"])}
     for _ in range(N_RANDOM[tier] // nshards):
@@ -313,11 +317,15 @@ def run_reentrant(case, stats):
 
     warm = set(case.get("warm", ()))
     warmed_a, warmed_s = set(), set()
+    fail_once = set(case.get("fail_once", ()))
+    started_a, started_s = set(), set()
     clearers = set(case.get("clearers", ()))  # runs for these arguments clear the cache they are being computed for
 
     async def af(n):
         loga.append(n)
         parts = []
+        first = n not in started_a
+        started_a.add(n)
         if n in warm and n not in warmed_a:
             # "warm-up": the first run for this argument calls the cache once for the SAME argument - when the outer
             # run finishes, its own key is in the cache already
@@ -330,13 +338,15 @@ def run_reentrant(case, stats):
                 parts.append(await ca(c))
             except ValueError:
                 parts.append("failed")
-        if n in fail:
+        if n in fail or (first and n in fail_once):
             raise ValueError(n)
         return (n, tuple(parts), len(loga))
 
     def sf(n):
         logs.append(n)
         parts = []
+        first = n not in started_s
+        started_s.add(n)
         if n in warm and n not in warmed_s:
             warmed_s.add(n)
             parts.append(cs(n))
@@ -347,7 +357,7 @@ def run_reentrant(case, stats):
                 parts.append(cs(c))
             except ValueError:
                 parts.append("failed")
-        if n in fail:
+        if n in fail or (first and n in fail_once):
             raise ValueError(n)
         return (n, tuple(parts), len(logs))
 
@@ -355,6 +365,7 @@ def run_reentrant(case, stats):
         """The top-level history under an unbounded cache that keeps the FIRST result stored for a key (the recorded
         finding): results and invocation log, for attributing a deviation to exactly that mechanism."""
         store, log, warmed, out = {}, [], set(), []
+        started = set()
         info = {"hits": 0, "misses": 0}
 
         def call(n):
@@ -364,6 +375,8 @@ def run_reentrant(case, stats):
             info["misses"] += 1
             log.append(n)
             parts = []
+            first = n not in started
+            started.add(n)
             if n in warm and n not in warmed:
                 warmed.add(n)
                 parts.append(call(n))
@@ -375,7 +388,7 @@ def run_reentrant(case, stats):
                     parts.append(call(c))
                 except ValueError:
                     parts.append("failed")
-            if n in fail:
+            if n in fail or (first and n in fail_once):
                 raise ValueError(n)
             result = (n, tuple(parts), len(log))
             if n not in store:
@@ -394,7 +407,7 @@ def run_reentrant(case, stats):
     ca, cs = deco(A, af), deco(functools, sf)
     viols = []
     seen_a = []
-    head = f"lru_cache maxsize={case['maxsize']} form={case['form']} re-entrant children={children} fail={case['fail']} warm={sorted(warm)} clearers={sorted(clearers)}"
+    head = f"lru_cache maxsize={case['maxsize']} form={case['form']} re-entrant children={children} fail={case['fail']} fail_once={sorted(fail_once)} warm={sorted(warm)} clearers={sorted(clearers)}"
     depth_seen = 0
     for i, top in enumerate(case["tops"]):
         if top == "clear":
